@@ -48,7 +48,8 @@ def optimumPolingPeriod (z : α) (cost : Bool → α → Cost α) (L : α) : Out
     let g := Transc.abs guess
     match NM1D.run (cost neg) g (g + (1e-6 : α)) 1000 minPositive L (1e-12 : α) with
     | .ok period =>
-      if L < period ∨ period < minPositive then
+      -- D92 repair: a result on the upper bound is the bound, not a zero of the mismatch
+      if L * ((1.0 : α) - (1e-9 : α)) ≤ period ∨ L < period ∨ period < minPositive then
         .err "Could not determine poling period from specified values"
       else .ok (Period.finite (signMul neg period))
     | .err e => .err e
